@@ -639,6 +639,55 @@ pub fn c09_nothing_more(s: &State) -> Vec<Failure> {
     out
 }
 
+/// C09 (observer): a clone taken after k elements continues where the original stands — both
+/// yield the same remainder of the documented sequence (the look-ahead idiom).
+#[allow(deprecated)]
+pub fn c09_clone_resume(s: &State) -> Vec<Failure> {
+    let mut out = Vec::new();
+    let n = s.arena.count();
+    let fuel = 2 * n + 4;
+    for x in s.model.live_slots() {
+        let id = s.cur[x];
+        let class = s.model.position(x);
+        macro_rules! check {
+            ($name:expr, $mk:expr, $fuel:expr) => {{
+                let r = guarded(|| {
+                    let full: Vec<_> = pull($mk, $fuel).0;
+                    let mut bad = None;
+                    for k in 0..=full.len() {
+                        let mut it = $mk;
+                        for _ in 0..k {
+                            it.next();
+                        }
+                        let c = it.clone();
+                        let rest_clone: Vec<_> = pull(c, $fuel).0;
+                        let rest_orig: Vec<_> = pull(it, $fuel).0;
+                        if rest_clone != rest_orig || rest_orig[..] != full[k.min(full.len())..] {
+                            bad = Some((k, format!("{:?}", rest_clone), format!("{:?}", rest_orig)));
+                            break;
+                        }
+                    }
+                    bad
+                });
+                if let Ok(Some((k, c, o))) = r {
+                    out.push(fail(C09, "traversal", false, $name, class, "clone-does-not-resume",
+                        format!("{}({}) cloned after {} elements: the clone yields {}, the original goes on with {}", $name, x + 1, k, c, o)));
+                }
+            }};
+        }
+        check!("ancestors", id.ancestors(&s.arena), fuel);
+        check!("predecessors", id.predecessors(&s.arena), fuel);
+        check!("preceding_siblings", id.preceding_siblings(&s.arena), fuel);
+        check!("following_siblings", id.following_siblings(&s.arena), fuel);
+        check!("children", id.children(&s.arena), fuel);
+        check!("reverse_children", id.reverse_children(&s.arena), fuel);
+        check!("descendants", id.descendants(&s.arena), fuel);
+        check!("traverse", id.traverse(&s.arena), 2 * fuel);
+        check!("reverse_traverse", id.reverse_traverse(&s.arena), 2 * fuel);
+    }
+    out
+}
+
 pub fn c10(s: &State, pulls_counter: &mut u64) -> Vec<Failure> {
     let mut out = Vec::new();
     let e = Expected { m: &s.model, cur: &s.cur };
@@ -1150,6 +1199,10 @@ pub fn liveness_observers(s: &State, target: Props) -> Vec<Failure> {
     if target & C06 != 0 {
         out.extend(c06(s));
     }
+    if target & C07 != 0 {
+        // which slots are free is decided by the history of removals, not by the shape
+        out.extend(drain(s, 10_000));
+    }
     if target & C11 != 0 {
         out.extend(c11(s));
     }
@@ -1206,6 +1259,7 @@ pub fn judge_state(
     if t & C09 != 0 {
         out.extend(c09(s));
         out.extend(c09_nothing_more(s));
+        out.extend(c09_clone_resume(s));
     }
     if t & C10 != 0 {
         out.extend(c10(s, &mut ctr.pulls));
